@@ -341,7 +341,8 @@ func (enc *encryptInfo) AsDict(version Version) (Dict, error) {
 }
 
 // EncryptBytes encrypts the bytes in buf using Algorithm 1 in the PDF spec.
-// This function modfies the contents of buf and may return buf.
+// The contents of buf are not modified; buf itself is returned only when no
+// string encryption is in effect.
 func (enc *encryptInfo) EncryptBytes(ref Reference, buf []byte) ([]byte, error) {
 	cf := enc.strF
 	if cf == nil {
@@ -382,8 +383,11 @@ func (enc *encryptInfo) EncryptBytes(ref Reference, buf []byte) ([]byte, error) 
 		if err != nil {
 			return nil, err
 		}
-		c.XORKeyStream(buf, buf)
-		return buf, nil
+		// encrypt into a fresh slice: buf may alias a String owned by the
+		// caller of the Writer, which must stay intact
+		out := make([]byte, len(buf))
+		c.XORKeyStream(out, buf)
+		return out, nil
 	default:
 		panic("unknown cipher")
 	}
